@@ -1,6 +1,40 @@
 #!/usr/bin/env python3
 """Prints the markdown table of seeded changes (from /verif/seeded/*/meta.json) for DESIGN.md §6.4."""
 import glob, json, os
+# what had to be added to the checks before the change was caught (empty: caught as first run)
+STRENGTHENED = {
+ 'C01-sup_estimate_recursion': 'deep-nesting generator now also nests <sup> (and every other container tag)',
+ 'C02-footnote_wide_char_boundary': 'hrefs with wide (katakana) characters',
+ 'C06-zero_width_span_skip': 'known unsized-column effect is predicted from the hooked column allocation instead of masking every zero-width cell',
+ 'C06-minsize_visible_separators': 'same as above',
+ 'C09-pre_wrap_flag_survives_newline': 'Preformat(false)-at-line-start rule; inline elements inside generated <pre>',
+ 'C15-frag_wrap_width': 'ids in the documents of the option relations',
+ 'C16-strike_suffix_filtered': 'affix documents rendered with unicode strikeout on as well',
+ 'C17-comment_star_run': 'comment forms /***/, /* * */, /**//**/ in the variants',
+ 'C18-idiom_decl_order': 'both declaration orders of the height:0 / overflow:hidden idiom',
+ 'C20-reparent_stale_parent': 'misnested documents (adoption agency / foster parenting) in the selector corpus',
+ 'C01-legacy_colour_slice': 'legacy color= / bgcolor= attributes with hostile values',
+ 'C03-hardwrap_overflow_tail': 'words may end in a combining mark (also after a wide letter)',
+ 'C04-stale_block_end': 'variant "after-empty-block"',
+ 'C04-fragstart_wrap_width': 'variant "max-wrap-width-with-id"',
+ 'C07-ol_empty_item_dropped': 'empty <li> items',
+ 'C07-subrender_trailing_blank_trim': 'items ending in <br><br>',
+ 'C08-empty_href_attr': 'href=""',
+ 'C08-sup_digit_link': 'digit-only <sup><a> links',
+ 'C09-pre_tag_cache_by_depth': 'inline elements glued to text inside <pre>',
+ 'C09-sup_digits_early_return': 'digit-only <sup> insertions',
+ 'C10-staged_root_unwrap': 'CSS white-space: pre on html/body through add_css and <style>',
+ 'C14-trailing_frags_reversed': 'document-order check for markers with no text between them',
+ 'C14-anchor_name_after_href': '<a> that is both a link and a named anchor, attributes in either order',
+ 'C15-pad_blank_line_content': 'known pad finding narrowed to documents with a blank <pre> line; leading / bare <br> in generated documents',
+ 'C16-dt_affix_before_newline': 'term line of a <dl> expected as <em>-affixed content instead of taken from the crate',
+ 'C17-atrule_semicolon_in_parens': 'junk statements with ";" inside () and []',
+ 'C17-doc_styles_joined': 'second (well-formed) and leading (broken) <style> elements',
+ 'C18-render_ctx_drops_config_css': 'three-step API route inside C18 (C10 caught it before)',
+ 'C19-specificity_decimal_score': 'selectors repeating a class / an id 11 times in the exhaustive part',
+ 'C19-block_dedup_ignores_importance': 'blocks with several declarations of one property in the random part (the inline pair of the exhaustive part caught it already)',
+ 'C20-class_space_only_separator': 'class attributes separated / padded by tab, LF, FF and runs of spaces',
+}
 rows = []
 for d in sorted(glob.glob('/verif/seeded/C*-*')):
     mp = os.path.join(d, 'meta.json')
@@ -13,11 +47,11 @@ for d in sorted(glob.glob('/verif/seeded/C*-*')):
         what = what[:167] + '...'
     fired = m.get('checks_that_fired') or []
     own = m.get('own_check_fired')
-    rows.append((key, what, 'yes' if own else 'no', ' '.join(fired)))
-print('| seeded change | what it does | own check fires | checks that fired |')
-print('|---|---|---|---|')
+    rows.append((key, what, 'yes' if own else 'no', ' '.join(fired), STRENGTHENED.get(key, '')))
+print('| seeded change | what it does | own check fires | checks that fired | added to the checks to catch it |')
+print('|---|---|---|---|---|')
 for r in rows:
-    print('| %s | %s | %s | %s |' % r)
+    print('| %s | %s | %s | %s | %s |' % r)
 print()
 print('%d seeded changes, %d caught by the check of the property they were written against, %d caught by some check.' % (
     len(rows), sum(1 for r in rows if r[2] == 'yes'), sum(1 for r in rows if r[3] and r[3] != 'none')))
